@@ -420,6 +420,7 @@ func (e *env) discover(rs []recvVariant) (cs []callable, attrs []attrCase) {
 		}
 	}
 	cs = append(cs, callable{fn: "struct", recv: -1, rep: true, get: func() (starlark.Value, func()) { return e.structB, nodone }})
+	cs = append(cs, e.opCallables()...)
 	for ri := range rs {
 		ri := ri
 		r := rs[ri]
